@@ -287,6 +287,32 @@ def memory_jobs(tier):
             yield (cname, unit, size, reads if size <= 65536 or cheap else 4)
 
 
+_DIAG = None
+
+
+def diagnostic():
+    """Diagnostic counters of the receiver (ashworld.diagnostic_attrs): a read counter or a byte total legitimately differs
+    between "one read" and "two reads" and must not take part in the state comparison of the commutation step."""
+    global _DIAG
+    if _DIAG is None:
+        from mc.env.ashworld import diagnostic_attrs
+
+        def make():
+            return fresh(0)[0]
+
+        def drive(proto):
+            for _ in range(4):
+                for nm in NAMES:
+                    try:
+                        proto.data_received(TOK[nm])
+                    except Exception:  # noqa
+                        pass
+                    yield
+
+        _DIAG = diagnostic_attrs(make, drive)
+    return _DIAG
+
+
 def commutation_states(depth):
     states = {}
     for L in range(depth + 1):
@@ -297,7 +323,7 @@ def commutation_states(depth):
                     proto.data_received(TOK[nm])
             except Exception:  # noqa -- a stream that raises is reported by the stream enumeration; it is not a state
                 continue
-            k = scalar_state(proto)
+            k = scalar_state(proto, skip=diagnostic())
             if k not in states:
                 states[k] = names
     return list(states.values())
@@ -322,7 +348,7 @@ def commutation_job(names):
             except Exception as e:  # noqa
                 res.append(("raised", repr(e)))
                 continue
-            res.append((scalar_state(proto), tuple(rec.events), b"".join(w for _, w in tr.writes)))
+            res.append((scalar_state(proto, skip=diagnostic()), tuple(rec.events), b"".join(w for _, w in tr.writes)))
         n += 1
         if res[0] != res[1] and len(out) < 3:
             out.append((f"C02|commute|{x}+{y}", f"after {names}: feeding {x}+{y} in one read differs from two reads",
